@@ -303,6 +303,7 @@ def searches(tier):
         Search('call_order', 'enum', order_cases(tier), shards=16),
         Search('fix_unfix', 'enum', fix_cases, shards=16),
         Search('keys', 'enum', key_cases(tier), shards=8 if q else 16),
+        Search('split_until_names_run_out', 'enum', split_cases, shards=4),
         Search('geometries', 'enum', geo_cases(tier), shards=16),
         Search('names_random', 'hyp', name_case, n=4000 if q else 400000, shards=2 if q else 16),
         Search('uniqstring', 'hyp', uniq_case, n=400 if q else 20000, shards=1 if q else 4),
@@ -810,8 +811,45 @@ def run_geo(case, R):
 
 SWITCH = {0: (2, 3), 2: (0, 3), 3: (2, 0)}        # conventions with the same name lengths (3-character columns, 2-character layers)
 
+def split_cases():
+    return [{'k': 'split', 'conv': conv, 'chars': ch, 'nx': nx, 'spaces': sp}
+            for conv in (0, 3) for ch, nx in (('abc', 10), ('ab', 3), ('xyz', 6)) for sp in (True, False)]
+
+
+def run_split(case, R):
+    """columns split one after the other until the column names of the convention run out: every new column gets a fresh
+    name of the right length, and when none is left the naming error is raised (not a refusal, a duplicate or a longer name)"""
+    import mulgrids
+    conv, chars, nx = case['conv'], case['chars'], case['nx']
+    R.label('split-until-names-run-out:conv%d:%d-chars' % (conv, len(chars))); R.nontrivial()
+    cap = caps(conv, chars, case['spaces'])[0]
+    try:
+        g = mulgrids.mulgrid().rectangular([1.] * nx, [1.] * 2, [1.], convention=conv, chars=chars, spaces=case['spaces'], atmos_type=2)
+    except mulgrids.NamingConventionError:
+        R.label('geo:refused'); return
+    L = g.colname_length
+    quads = [c.name for c in g.columnlist]
+    raised = False
+    for k, name in enumerate(quads):
+        n0 = g.num_columns
+        col = g.column[name]
+        try:
+            ok = g.split_column(name, col.node[0].name, chars=chars)
+        except mulgrids.NamingConventionError:
+            raised = True
+            R.check(n0 >= cap, 'split:naming-error-before-the-names-ran-out', 'split %d refused with %d columns, %d names exist' % (k + 1, n0, cap))
+            break
+        names = [c.name for c in g.columnlist]
+        if not R.check(ok is True and g.num_columns == n0 + 1, 'split:refused-without-a-naming-error',
+                       'split_column() number %d returned %r with %d columns (%d column names exist)' % (k + 1, ok, n0, cap)): return
+        if not R.check(len(set(names)) == len(names) and all(len(n) == L for n in names), 'split:duplicate-or-overlong-name', repr(names[-3:])): return
+        if not R.check(g.num_columns <= cap, 'split:more-columns-than-names', '%d columns, %d names' % (g.num_columns, cap)): return
+    if raised: R.label('split:naming-error-raised')
+
+
 def run_case(case, R):
     k = case['k']
+    if k == 'split': return run_split(case, R)
     if k == 'num': run_num(case, R)
     elif k == 'fix': run_fix(case, R)
     elif k == 'name': run_name(case, R)
